@@ -27,6 +27,10 @@ def _exact_cases():
         for lat in (1, 2):
             out.append(("outage", [("net", "accept"), ("lat", lat), ("blockfirst", 1), ("open",), ("send", 1, "ok", "idem"), ("send", 2, "ok", "conn"),
                                    ("send", 3, "ok", "idem"), ("send", 4, "ok", "conn"), ("adv", lat + wait), ("blockfirst", 0), ("block", 0), ("adv", 16)]))
+            # ... and with the short-lived message at the head: it is written at once when the connection comes up (the congestion only
+            # holds up the flush that follows the write), never after its lifetime
+            out.append(("outage", [("net", "accept"), ("lat", lat), ("blockfirst", 1), ("open",), ("send", 1, "ok", "conn"), ("send", 2, "ok", "idem"),
+                                   ("adv", lat + wait), ("blockfirst", 0), ("block", 0), ("adv", 16)]))
     # a held message survives a failed flush (the write fails on a connection that has died, it goes back for a retry), the link then
     # stays down past the lifetime its sender asked for, and the buffer is filled: the old message has expired - it occupies no slot
     # (the tenth fresh message is accepted) and is not transmitted on the next connection
